@@ -153,7 +153,21 @@ func genC03a(t *rapid.T) clCase {
 func runC03a(c clCase, o *vfutil.Obs) *vfutil.Failure {
 	var readers []*c03Reader
 	nt := false
-	f := runCL(c, o, func(x *clExec, op clOp) (*vfutil.Failure, bool) {
+	f := runCL(c, o, c03Hook(&readers, &nt, o))
+	if nt {
+		o.NonTrivial()
+	}
+	return f
+}
+
+// c03Hook executes the operations on long-lived committed readers (sethw2,
+// newreader, read). It is shared with the C01 flavour, which parks readers
+// across appends and HW moves.
+func c03Hook(readersP *[]*c03Reader, ntP *bool, o *vfutil.Obs) func(x *clExec, op clOp) (*vfutil.Failure, bool) {
+	return func(x *clExec, op clOp) (*vfutil.Failure, bool) {
+		readers := *readersP
+		nt := *ntP
+		defer func() { *readersP = readers; *ntP = nt }()
 		switch op.Op {
 		case "sethw2":
 			if x.m.newest() <= x.m.HW {
@@ -293,11 +307,7 @@ func runC03a(c clCase, o *vfutil.Obs) *vfutil.Failure {
 			return nil, true
 		}
 		return nil, false
-	})
-	if nt {
-		o.NonTrivial()
 	}
-	return f
 }
 
 func TestVerifC03a(t *testing.T) {
